@@ -80,6 +80,7 @@ type Rewrite struct {
 	Off int64  `json:"off"`
 	Del int64  `json:"del"`
 	Ins []byte `json:"ins,omitempty"`
+	Xor byte   `json:"xor,omitempty"` // stream only: if non-zero, the byte at Off is xor-ed (Del/Ins ignored)
 }
 
 // StreamPolicy describes how one direction of one TCP-like connection behaves.
